@@ -162,10 +162,13 @@ theorem lcVerify_frame {c : Cfg} {l : Local} {file : File} {din : Option Desc} {
     (h : (lcVerify c l file din now gen fault).out = .write d') : Good c.id (din.getD []) d' := by
   by_cases hf : fault = .failBefore
   · simp [lcVerify, hf] at h
-  · simp only [lcVerify, hf, if_false] at h
-    split at h
-    · simp at h
-    · simp at h; subst h; exact good_put _ (lcInst_id _ _ _ _)
+  · cases hg : Desc.get? (din.getD []) c.id with
+    | none => simp [lcVerify, hf, hg] at h; subst h; exact good_put _ (lcInst_id _ _ _ _)
+    | some e =>
+      simp only [lcVerify, hf, if_false, hg] at h
+      split at h
+      · simp at h
+      · simp at h; subst h; exact good_put _ (lcInst_id _ _ _ _)
 
 theorem lcInit_frame {c : Cfg} {file : File} {din : Option Desc} {shuf : List Nat} {now : Int} {gen : Gen} {fault : Fault} {d' : Desc}
     (h : (lcInit c file din shuf now gen fault).out = .write d') : Good c.id (din.getD []) d' := by
@@ -191,6 +194,52 @@ theorem lcUnregister_frame {c : Cfg} {l : Local} {file : File} {din : Option Des
     | none => simp [lcUnregister, hf] at h
     | some d => simp [lcUnregister, hf] at h; subst h; exact good_erase _ _
 
+theorem claimOn_frame (c : Cfg) (d0 : Desc) (frm : String) (now : Int) (k : String) (hk : k ≠ c.id) :
+    Desc.get? (claimOn c d0 frm now) k = Desc.get? d0 k ∨
+    (k = frm ∧ ∃ e, Desc.get? d0 k = some e ∧ Desc.get? (claimOn c d0 frm now) k = some { e with tokens := [] }) := by
+  unfold claimOn
+  cases hfr : Desc.get? d0 frm with
+  | none =>
+    simp only []
+    left
+    apply get?_put_other
+    cases hs : Desc.get? d0 c.id with
+    | none => simpa using hk
+    | some i => simpa [get?_some_id hs] using hk
+  | some f =>
+    simp only []
+    have hfid : f.id = frm := get?_some_id hfr
+    have hid : ((Desc.get? (put d0 { f with tokens := [] }) c.id).getD { id := c.id }).id = c.id := by
+      cases hs : Desc.get? (put d0 { f with tokens := [] }) c.id with
+      | none => rfl
+      | some i => simpa using get?_some_id hs
+    rw [get?_put_other _ _ k (by simpa [hid] using hk)]
+    by_cases hkf : k = frm
+    · right
+      refine ⟨hkf, f, by rw [hkf]; exact hfr, ?_⟩
+      rw [get?_put]; simp [hkf, hfid]
+    · left
+      exact get?_put_other _ _ k (by simpa [hfid] using hkf)
+
+/-- the descriptor `ClaimTokensFor` works on: the ring, with the own entry added back if it was missing -/
+def claimBase (c : Cfg) (l : Local) (d : Desc) (now : Int) : Desc :=
+  match Desc.get? d c.id with
+  | none => put d (lcInst c { l with regTs := now } l.tokens now)
+  | some _ => d
+
+theorem claimBase_other (c : Cfg) (l : Local) (d : Desc) (now : Int) (k : String) (hk : k ≠ c.id) :
+    Desc.get? (claimBase c l d now) k = Desc.get? d k := by
+  unfold claimBase
+  cases Desc.get? d c.id with
+  | none => exact get?_put_other _ _ k hk
+  | some _ => rfl
+
+theorem lcClaim_out {c : Cfg} {l : Local} {file : File} {d : Desc} {frm : String} {now : Int} {fault : Fault}
+    (hf : fault ≠ .failBefore) :
+    (lcClaim c l file (some d) frm now fault).out = .write (claimOn c (claimBase c l d now) frm now) := by
+  unfold claimBase
+  cases hg : Desc.get? d c.id <;> simp [lcClaim, hf, hg]
+
 theorem lcClaim_frame {c : Cfg} {l : Local} {file : File} {din : Option Desc} {frm : String} {now : Int} {fault : Fault} {d' : Desc}
     (h : (lcClaim c l file din frm now fault).out = .write d') (k : String) (hk : k ≠ c.id) :
     Desc.get? d' k = Desc.get? (din.getD []) k ∨
@@ -200,32 +249,13 @@ theorem lcClaim_frame {c : Cfg} {l : Local} {file : File} {din : Option Desc} {f
   · cases din with
     | none => simp [lcClaim, hf] at h
     | some d =>
-      simp only [lcClaim, hf, if_false] at h
+      rw [lcClaim_out hf] at h
+      simp only [CasOut.write.injEq] at h
+      subst h
       simp only [Option.getD_some]
-      cases hfr : Desc.get? d frm with
-      | none =>
-        simp only [hfr] at h
-        simp at h; subst h
-        left
-        apply get?_put_other
-        cases hs : Desc.get? d c.id with
-        | none => simpa using hk
-        | some i => simpa [get?_some_id hs] using hk
-      | some f =>
-        simp only [hfr] at h
-        simp at h; subst h
-        have hfid : f.id = frm := get?_some_id hfr
-        have hid : ((Desc.get? (put d { f with tokens := [] }) c.id).getD { id := c.id }).id = c.id := by
-          cases hs : Desc.get? (put d { f with tokens := [] }) c.id with
-          | none => rfl
-          | some i => simpa using get?_some_id hs
-        rw [get?_put_other _ _ k (by simpa [hid] using hk)]
-        by_cases hkf : k = frm
-        · right
-          refine ⟨hkf, f, by rw [hkf]; exact hfr, ?_⟩
-          rw [get?_put]; simp [hkf, hfid]
-        · left
-          exact get?_put_other _ _ k (by simpa [hfid] using hkf)
+      rcases claimOn_frame c (claimBase c l d now) frm now k hk with h1 | ⟨h1, e, h2, h3⟩
+      · left; rw [h1, claimBase_other c l d now k hk]
+      · right; exact ⟨h1, e, by rw [← claimBase_other c l d now k hk]; exact h2, h3⟩
 
 /-! BasicLifecycler -/
 
@@ -466,37 +496,56 @@ theorem lcUpdate_ok {c : Cfg} {l : Local} {file : File} {din : Option Desc} {now
 theorem lcAutoJoin_ok {c : Cfg} {l : Local} {file : File} {din : Option Desc} {target : State} {now : Int} {gen : Gen}
     (hI : LInv c l din) (hs : l.started = true) (hp : l.state = .PENDING) (ht : target = .JOINING ∨ target = .ACTIVE) :
     WriteOK c now din (lcAutoJoin c l file din target now gen .none) := by
-  apply writeOK_put
-  · simp only [lcAutoJoin]; rfl
-  · rfl
-  · intro a ha
-    have hA := hI hs a ha
-    refine ⟨?_, ?_, fun h => ⟨h, Int.le_refl _⟩⟩
-    · apply edge_join ht
-      rcases hA.1 with h1 | ⟨h1, _⟩
-      · left; rw [h1, hp]
-      · right; exact h1
-    · simp [lcInst, hA.2]
-  · intro _; simp [lcAutoJoin, Agrees, lcInst]
-  · exact Int.le_refl _
+  cases hg : Desc.get? (din.getD []) c.id with
+  | none =>
+    apply writeOK_put
+    · simp only [lcAutoJoin, hg]; rfl
+    · rfl
+    · intro a ha; rw [hg] at ha; cases ha
+    · intro _; simp [lcAutoJoin, hg, Agrees, lcInst]
+    · exact Int.le_refl _
+  | some a0 =>
+    apply writeOK_put
+    · simp only [lcAutoJoin, hg]; rfl
+    · rfl
+    · intro a ha
+      rw [hg] at ha; cases ha
+      have hA := hI hs a0 hg
+      refine ⟨?_, ?_, fun h => ⟨h, Int.le_refl _⟩⟩
+      · apply edge_join ht
+        rcases hA.1 with h1 | ⟨h1, _⟩
+        · left; rw [h1, hp]
+        · right; exact h1
+      · simp [lcInst, hA.2]
+    · intro _; simp [lcAutoJoin, hg, Agrees, lcInst]
+    · exact Int.le_refl _
 
 theorem lcVerify_ok {c : Cfg} {l : Local} {file : File} {din : Option Desc} {now : Int} {gen : Gen}
     (hI : LInv c l din) (hs : l.started = true) :
     WriteOK c now din (lcVerify c l file din now gen .none) := by
-  by_cases he : sortNat (tokensOf (din.getD []) c.id) = sortNat l.tokens
-  · apply writeOK_nowrite
-    · intro d; simp [lcVerify, he]
-    · intro _ i hi
-      have := hI hs i hi
-      simpa [lcVerify, Agrees] using this
-  · apply writeOK_put
-    · simp only [lcVerify, he]; rfl
+  cases hg : Desc.get? (din.getD []) c.id with
+  | none =>
+    apply writeOK_put
+    · simp only [lcVerify, hg]; rfl
     · rfl
-    · intro a ha
-      have hA := hI hs a ha
-      exact ⟨edge_of_agrees_same hA, by simp [lcInst, hA.2], fun h => ⟨h, Int.le_refl _⟩⟩
-    · intro _; simp [lcVerify, Agrees, lcInst]
+    · intro a ha; rw [hg] at ha; cases ha
+    · intro _; simp [lcVerify, hg, Agrees, lcInst]
     · exact Int.le_refl _
+  | some a0 =>
+    by_cases he : sortNat (tokensOf (din.getD []) c.id) = sortNat l.tokens
+    · apply writeOK_nowrite
+      · intro d; simp [lcVerify, hg, he]
+      · intro _ i hi
+        have := hI hs i hi
+        simpa [lcVerify, hg, Agrees] using this
+    · apply writeOK_put
+      · simp only [lcVerify, hg, he]; rfl
+      · rfl
+      · intro a ha
+        have hA := hI hs a ha
+        exact ⟨edge_of_agrees_same hA, by simp [lcInst, hA.2], fun h => ⟨h, Int.le_refl _⟩⟩
+      · intro _; simp [lcVerify, hg, Agrees, lcInst]
+      · exact Int.le_refl _
 
 theorem lcInit_ok {c : Cfg} {file : File} {din : Option Desc} {shuf : List Nat} {now : Int} {gen : Gen} :
     WriteOK c now din (lcInit c file din shuf now gen .none) := by
@@ -547,7 +596,8 @@ theorem lcInit_ok {c : Cfg} {file : File} {din : Option Desc} {shuf : List Nat} 
           simp only [lcInit, hg, hj, Agrees]
           exact ⟨Or.inl hst.symm, rfl⟩
 
-theorem lcClaim_ok {c : Cfg} {l : Local} {file : File} {din : Option Desc} {frm : String} {now : Int}
+/-- `ClaimTokensFor` of an instance that is in the ring -/
+theorem lcClaim_ok_present {c : Cfg} {l : Local} {file : File} {din : Option Desc} {frm : String} {now : Int}
     (hI : LInv c l din) (hfrm : frm ≠ c.id) (hpres : (Desc.get? (din.getD []) c.id).isSome) :
     WriteOK c now din (lcClaim c l file din frm now .none) := by
   cases din with
@@ -569,13 +619,13 @@ theorem lcClaim_ok {c : Cfg} {l : Local} {file : File} {din : Option Desc} {frm 
       cases hf : Desc.get? d frm with
       | none =>
         refine ⟨d, ha, ?_, ?_⟩
-        · simp [lcClaim, hf, ha]
-        · simp [lcClaim]
+        · simp [lcClaim, claimOn, hf, ha]
+        · simp [lcClaim, ha]
       | some f =>
         have := hd1 (put d { f with tokens := [] }) (Or.inr ⟨f, hf, rfl⟩)
         refine ⟨_, this, ?_, ?_⟩
-        · simp [lcClaim, hf, this]
-        · simp [lcClaim]
+        · simp [lcClaim, claimOn, hf, ha, this]
+        · simp [lcClaim, ha]
     obtain ⟨d1, hg1, hout, hl⟩ := key
     have hget : Desc.get? (put d1 { a with tokens := sortNat (tokensOf d frm), ts := now }) c.id =
         some { a with tokens := sortNat (tokensOf d frm), ts := now } := by
@@ -596,6 +646,52 @@ theorem lcClaim_ok {c : Cfg} {l : Local} {file : File} {din : Option Desc} {frm 
       rw [hout] at hd'; cases hd'
       rw [hget] at hb; cases hb
       exact Int.le_refl _
+
+/-- `ClaimTokensFor`, own entry in the ring or not (then it is added back first, registered now) -/
+theorem lcClaim_ok {c : Cfg} {l : Local} {file : File} {din : Option Desc} {frm : String} {now : Int}
+    (hI : LInv c l din) (hfrm : frm ≠ c.id) :
+    WriteOK c now din (lcClaim c l file din frm now .none) := by
+  cases hg : Desc.get? (din.getD []) c.id with
+  | some a => exact lcClaim_ok_present hI hfrm (by simp [hg])
+  | none =>
+    cases din with
+    | none =>
+      apply writeOK_nowrite
+      · intro d; simp [lcClaim]
+      · simpa [lcClaim] using hI
+    | some d =>
+      simp only [Option.getD_some] at hg
+      -- the written descriptor holds the re-inserted own entry with the claimed tokens
+      have hbase : Desc.get? (claimBase c l d now) c.id = some (lcInst c { l with regTs := now } l.tokens now) := by
+        simp only [claimBase, hg]; rw [← lcInst_id c { l with regTs := now } l.tokens now]; exact get?_put_self _ _
+      have hout := lcClaim_out (c := c) (l := l) (file := file) (d := d) (frm := frm) (now := now) (fault := .none) (by decide)
+      have hown : ∃ b, Desc.get? (claimOn c (claimBase c l d now) frm now) c.id = some b ∧ b.state = l.state ∧ b.regTs = now ∧ b.ts = now := by
+        cases hf : Desc.get? (claimBase c l d now) frm with
+        | none =>
+          refine ⟨{ lcInst c { l with regTs := now } l.tokens now with tokens := sortNat (tokensOf (claimBase c l d now) frm), ts := now }, ?_, rfl, rfl, rfl⟩
+          simp only [claimOn, hf, hbase, Option.getD_some]; rw [get?_put]; simp [lcInst]
+        | some f =>
+          have hown : Desc.get? (put (claimBase c l d now) { f with tokens := [] }) c.id =
+              some (lcInst c { l with regTs := now } l.tokens now) := by
+            rw [get?_put_other _ _ _ (by simpa [get?_some_id hf] using hfrm.symm)]; exact hbase
+          refine ⟨{ lcInst c { l with regTs := now } l.tokens now with tokens := sortNat (tokensOf (claimBase c l d now) frm), ts := now }, ?_, rfl, rfl, rfl⟩
+          simp only [claimOn, hf, hown, Option.getD_some]; rw [get?_put]; simp [lcInst]
+      obtain ⟨b, hb, hbs, hbr, hbt⟩ := hown
+      have hl : (lcClaim c l file (some d) frm now .none).l.state = l.state ∧ (lcClaim c l file (some d) frm now .none).l.regTs = now := by
+        simp [lcClaim, hg]
+      constructor
+      · intro d' _ a b' ha _
+        simp only [Option.getD_some] at ha
+        rw [hg] at ha; cases ha
+      · rw [commit_write hout]
+        intro _ i hi
+        simp only [Option.getD_some] at hi
+        rw [hb] at hi; cases hi
+        exact ⟨Or.inl (by rw [hbs, hl.1]), by rw [hbr, hl.2]⟩
+      · intro d' b' hd' hb' _
+        rw [hout] at hd'; cases hd'
+        rw [hb] at hb'; cases hb'
+        rw [hbt]; exact Int.le_refl _
 
 theorem lcUnregister_ok {c : Cfg} {l : Local} {file : File} {din : Option Desc} {now : Int}
     (hI : LInv c l din) : WriteOK c now din (lcUnregister c l file din .none) := by
@@ -636,7 +732,7 @@ theorem linv_of_keeps {c : Cfg} {l l' : Local} {store : Option Desc} (hI : LInv 
 /-- every handler of the full lifecycler, on an accepting store -/
 theorem lc_step_ok {c : Cfg} {l : Local} {file : File} {din : Option Desc} {ev : Event} {now : Int} {gen : Gen}
     (hk : c.kind = .LC) (hI : LInv c l din)
-    (hclaim : ∀ frm, ev = .claim frm → frm ≠ c.id ∧ (Desc.get? (din.getD []) c.id).isSome) :
+    (hclaim : ∀ frm, ev = .claim frm → frm ≠ c.id) :
     WriteOK c now din (step c l file din ev now gen .none) := by
   have hnoop : ∀ r : Ret, WriteOK c now din (noop l file r) := by
     intro r
@@ -670,7 +766,7 @@ theorem lc_step_ok {c : Cfg} {l : Local} {file : File} {din : Option Desc} {ev :
     split
     · exact hnoop _
     · exact lcUpdate_ok (l := { l with ro := b, roTs := now }) (fun a ha => ⟨edge_of_agrees_same (hI hs a ha), (hI hs a ha).2⟩)
-  case claim frm => exact lcClaim_ok hI (hclaim frm rfl).1 (hclaim frm rfl).2
+  case claim frm => exact lcClaim_ok hI (hclaim frm rfl)
   case unregister => exact lcUnregister_ok hI
   case checkReady =>
     apply writeOK_nowrite
@@ -687,14 +783,14 @@ def EnvOK (id : String) (s s' : Option Desc) : Prop :=
   ∃ e, Desc.get? (s.getD []) id = some e ∧ Desc.get? (s'.getD []) id = some { e with tokens := [] }
 
 /-- the actions C08 quantifies over: the store accepts writes, the clock does not go backwards, tokens are
-claimed by a registered instance from somebody else, the environment respects the frame -/
+claimed from somebody else, the environment respects the frame -/
 def ActOK (c : Cfg) (s : Sys) : Act → Prop
   | .own ev now _ fault => fault = .none ∧ s.clock ≤ now ∧
-      ∀ frm, ev = .claim frm → frm ≠ c.id ∧ (Desc.get? (s.store.getD []) c.id).isSome
+      ∀ frm, ev = .claim frm → frm ≠ c.id
   | .env st now => s.clock ≤ now ∧ EnvOK c.id s.store st
   | .crash => True
   | .crashIn ev now _ _ => s.clock ≤ now ∧
-      ∀ frm, ev = .claim frm → frm ≠ c.id ∧ (Desc.get? (s.store.getD []) c.id).isSome
+      ∀ frm, ev = .claim frm → frm ≠ c.id
 
 def RunOK (c : Cfg) : Sys → List Act → Prop
   | _, [] => True
@@ -717,7 +813,7 @@ def PubOK (a b : Inst) : Prop := Edge a.state b.state ∧ b.regTs = a.regTs ∧ 
 
 /-- one own handler on an accepting store: invariant, heartbeat bound and what happens to the published entry -/
 theorem lc_own_step {c : Cfg} (hk : c.kind = .LC) {s : Sys} {ev : Event} {now : Int} {gen : Gen} (hI : SInv c s)
-    (hclk : s.clock ≤ now) (hcl : ∀ frm, ev = .claim frm → frm ≠ c.id ∧ (Desc.get? (s.store.getD []) c.id).isSome) :
+    (hclk : s.clock ≤ now) (hcl : ∀ frm, ev = .claim frm → frm ≠ c.id) :
     let r := step c s.l s.file s.store ev now gen .none
     LInv c r.l (commit s.store r .none) ∧
     (∀ y, Desc.get? ((commit s.store r .none).getD []) c.id = some y → y.ts ≤ now) ∧
@@ -1181,13 +1277,19 @@ theorem step_wf {c : Cfg} {l : Local} {file : File} {din : Option Desc} {ev : Ev
         | none => simp [lcClaim] at ho
         | some d =>
           simp only [Option.getD_some] at hwf
-          simp only [lcClaim, reduceCtorEq, if_false] at ho
+          rw [lcClaim_out (by decide)] at ho
           simp only [CasOut.write.injEq] at ho
           subst ho
+          have hwb : WF (claimBase c l d now) := by
+            unfold claimBase
+            cases Desc.get? d c.id with
+            | none => exact wf_put hwf _
+            | some _ => exact hwf
+          unfold claimOn
           apply wf_put
-          cases hf : Desc.get? d frm with
-          | none => exact hwf
-          | some f => exact wf_put hwf _
+          cases hf : Desc.get? (claimBase c l d now) frm with
+          | none => exact hwb
+          | some f => exact wf_put hwb _
       · exact (lcUnregister_frame ho).2 hwf
       · exact (blcRegister_frame ho).2 hwf
       · exact (blcUpdate_frame (keepsId_verify _ _ _) (updVerify_d _ _ _) ho).2 hwf
